@@ -6,6 +6,7 @@ import (
 	"encoding/base64"
 	"encoding/json"
 	"fmt"
+	"math"
 	"sort"
 	"strings"
 
@@ -300,6 +301,32 @@ func (t *tamper) apply(kind int) string {
 			return ""
 		}
 		src := pl.Keys[0]
+		// letter case is content: git refs, and what the documented expansion makes of names, keep it
+		if t.draw(4, "mut:srccase") == 3 {
+			flip := func(s string, from int) (string, bool) {
+				for i := len(s) - 1; i >= from; i-- {
+					ch := s[i]
+					switch {
+					case ch >= 'a' && ch <= 'z':
+						return s[:i] + string(ch-32) + s[i+1:], true
+					case ch >= 'A' && ch <= 'Z':
+						return s[:i] + string(ch+32) + s[i+1:], true
+					}
+				}
+				return s, false
+			}
+			from := 0
+			if i := strings.Index(src, "#"); i >= 0 && t.draw(2, "mut:srccase-ref") == 1 {
+				from = i + 1
+			}
+			if ns, ok := flip(src, from); ok {
+				pl.Keys[0] = ns
+				if from > 0 {
+					return "corrupt.plugin-source.letter-case-of-ref"
+				}
+				return "corrupt.plugin-source.letter-case"
+			}
+		}
 		// A canonical github.com/<org>/<name>-buildkite-plugin[#ref] source respelled in short form WITH
 		// the suffix kept is, by the documented expansion, a different repository
 		// (<name>-buildkite-plugin-buildkite-plugin).
@@ -940,7 +967,40 @@ func runC01(c *engine.Ctx) {
 		}
 		var undo func()
 		name := ""
-		switch c.Sched.Draw(5, "mem:kind") {
+		switch c.Sched.Draw(6, "mem:kind") {
+		case 5:
+			// a plugin option that was null when signed and is an in-memory-only value (an infinity, a NaN) when
+			// presented: not the same content, whatever a JSON encoder would make of it
+			if len(cs.Plugins) == 0 {
+				return
+			}
+			pl := cs.Plugins[c.Sched.Draw(len(cs.Plugins), "mem:plugin")]
+			oldCfg, oldSig := pl.Config, cs.Signature
+			cfg := map[string]any{"bksim_timeout": nil, "nested": []any{nil, "x"}}
+			if m, ok := oldCfg.(map[string]any); ok {
+				for k, v := range m {
+					cfg[k] = v
+				}
+			}
+			pl.Config = cfg
+			var sig *pipeline.Signature
+			var serr error
+			c.Guard("C01.panic", "Sign step with a null plugin option", func() {
+				sig, serr = signature.Sign(context.Background(), kp.priv, &signature.CommandStepWithInvariants{CommandStep: *cs, RepositoryURL: repoURL}, signature.WithEnv(u.signEnv))
+			})
+			if serr != nil {
+				pl.Config = oldCfg
+				return
+			}
+			cs.Signature = sig
+			nonFinite := []float64{math.Inf(1), math.Inf(-1), math.NaN()}[c.Sched.Draw(3, "mem:nonfinite")]
+			if c.Sched.Draw(2, "mem:nonfinite-where") == 0 {
+				cfg["bksim_timeout"] = nonFinite
+			} else {
+				cfg["nested"] = []any{nonFinite, "x"}
+			}
+			name = "memory.plugin-option-null-to-non-finite-number"
+			undo = func() { pl.Config = oldCfg; cs.Signature = oldSig }
 		case 4:
 			// a matrix that carries extra keys NAMED like its typed fields (as interpolation of an unknown key can
 			// produce): sign it as it is, then change the real setup
